@@ -39,6 +39,9 @@ def make_cfg(seed, i, for_ref=False):
     if spec.get("noise"):
         args["objfun_has_noise"] = bool(r() < 0.5)
     cfg["args"] = args
+    if r() < 0.25:
+        # the log line has two branches (whole x printed / 'x = [...]'): drive the second one too
+        up["logging.n_to_print_whole_x_vector"] = int(rng.integers(0, n + 1))
     u = r()
     if u < 0.75:
         kind = gen.pick(rng, ["const", "iter", "rho", "nruns", "rand"])
